@@ -88,6 +88,14 @@ var props = map[string]*propSpec{
 		QuickBudget:    50 * time.Second,
 		ThoroughBudget: 20 * time.Minute,
 	},
+	"C06": {
+		Level: "exploration",
+		Rule: "the window / chunk / credit rules of the wire monitor (un-credited bytes on the wire <= advertised window, <= 16384 message bytes per frame, cumulative credit <= data delivered) run on every frame of the message-flow, flow-control and teardown families; family overrun: a raw peer (client against the real server, server against the real client, both network roles) overruns the 64 KiB window by 1 byte .. 16 windows, in one message or many, in chunks of 1000 / 16384 / 60000 bytes, after 0-2 genuinely consumed messages, while the application is parked, with a bystander in flight and a fresh RPC afterwards; flowcore checks the receiver in isolation; " +
+			"non-trivial = the overrun was sent / a message spanned several chunks; distinct = distinct schedule digests",
+		Families:       []famPlan{{Family: "overrun", Weight: 3}, {Family: "msgflow", Weight: 2}, {Family: "flow", Weight: 1, Batch: 10}, {Family: "flowcore", Weight: 1}},
+		QuickBudget:    45 * time.Second,
+		ThoroughBudget: 15 * time.Minute,
+	},
 	"C08": {
 		Level: "exploration",
 		Rule: "family idrace: 2-16 caller goroutines released together start RPCs (mixed shapes, some failing at start: failing / secure-only credentials, already-cancelled context) on one channel x schedule, wire monitor checks ids strictly increase and every id starts with new_stream, history checks one handler invocation per completed call; family idraw: a raw tunnel client (both network roles, negotiated or legacy) sends valid streams and one of {reuse live id, reuse finished id, backwards id, negative id, frames for a finished id, skipped-ahead id, frame for a never-created id}, then a probe stream; " +
